@@ -96,6 +96,7 @@ type Case struct {
 	ColorPre   bool      `json:"colorPre,omitempty"`   // the PreOps run with colours enabled (fatih/color.NoColor == false), as on a terminal
 	LateProg   []AddStep `json:"lateProg,omitempty"`   // From-Root walkiter only: Add calls made after the iterator was created and before it is ranged over
 	MidProg    []AddStep `json:"midProg,omitempty"`    // From-Root only: Add calls made after the PreOps and before the operation under test
+	ZeroNode   bool      `json:"zeroNode,omitempty"`   // From-Root: the node handed over is new(gtree.Node), made by neither NewRoot nor Add
 	MidOps     []string  `json:"midOps,omitempty"`     // operations run after MidProg (the tree has grown since the PreOps); "other-<op>" runs <op> on an unrelated tree
 	RangeTwice bool      `json:"rangeTwice,omitempty"` // walkiter: the same iterator value is ranged over a second time
 	Nest       int       `json:"nest,omitempty"`       // walkiter: k>0 = while the walk is at its visit k-1, another complete walk of the same tree runs (odd k: over the same iterator value, even k: over a new one)
